@@ -270,9 +270,41 @@ def recase(ddl, rng, how=None):
     return "".join(out)
 
 
+WRAP_KINDS = {"schema", "tablespace", "database", "enum", "domain"}
+NOT_AT_LINE_START = {"CREATE", "ALTER", "DROP", "SET", "GO", "USE", "INSERT", "GRANT", "DELETE"}
+
+
+def wrap(ddl, rng, p=0.5):
+    """the declaration over several lines: a line break (plus indent) at blanks outside quotes and parentheses, in front of a word
+    (never in front of a quote, a parenthesis or a statement-level word; the first two words stay together)"""
+    out, depth, q, words_seen = [], 0, None, 0
+    for i, ch in enumerate(ddl):
+        if q:
+            out.append(ch)
+            if ch == q:
+                q = None
+            continue
+        if ch in "'\"`":
+            q = ch
+        elif ch in "([":
+            depth += 1
+        elif ch in ")]":
+            depth -= 1
+        if ch == " " and depth == 0 and i + 1 < len(ddl) and (ddl[i + 1].isalpha() or ddl[i + 1] == "_"):
+            words_seen += 1
+            m = re.match(r"[A-Za-z_]+", ddl[i + 1:])
+            if words_seen >= 2 and m.group(0).upper() not in NOT_AT_LINE_START and rng.random() < p:
+                out.append(rng.choice(["\n    ", "\n  ", "\n\t", "\n"]))
+                continue
+        out.append(ch)
+    return "".join(out)
+
+
 def build_case(rng, ekind, gen, **kw):
     kind = ekind
     ddl, exp, kf, tname = GENS[kind](rng, **{k: v for k, v in kw.items() if k != "second"})
+    if kind in WRAP_KINDS and kf is None and rng.random() < 0.2:
+        ddl = wrap(ddl, rng)
     if kind in RECASE_KINDS and kf is None and not (kind == "domain" and exp.get("base_type") == "ENUM") and rng.random() < RECASE_P:
         # calibrated on the pinned tree: these declarations are recognised in any keyword case; two words are reported as written
         ddl = recase(ddl, rng)
